@@ -23,11 +23,29 @@ import vlib
 THEOREMS = ["Yardl.C20.serialized_converges", "Yardl.C20.invalid_intermediate_states_are_harmless", "Yardl.C20.concurrent_can_be_overtaken",
             "Yardl.C20.skip_if_busy_drops_the_last_save", "Yardl.C20.concurrent_converges_if_fifo"]
 
-MANIFEST = "namespace: Watch\npython:\n  outputDir: ../out_py\njson:\n  outputDir: ../out_json\n"
+# the watched package imports Lib, which imports Base: the invalid intermediate states include those of the imported packages
+MANIFEST = "namespace: Watch\nimports:\n  - ../lib\npython:\n  outputDir: ../out_py\njson:\n  outputDir: ../out_json\n"
+LIB_MANIFESTS = {
+    "valid": "namespace: Lib\nimports:\n  - ../base\n",
+    "unsupported-scheme": "namespace: Lib\nimports:\n  - ../base\n  - http://example.invalid/units\n",
+    "missing-directory": "namespace: Lib\nimports:\n  - ../base\n  - ../nowhere\n",
+    "empty-url": "namespace: Lib\nimports:\n  - ../base\n  - \"\"\n",
+    "yaml-error": "namespace: Lib\nimports: [../base\n",
+    "no-namespace": "imports:\n  - ../base\n",
+}
+
+
+def lib_model(version, valid=True):
+    return f"LibRec: !record\n  fields:\n    b: Base.BaseRec\n    l{version}: " + ("int" if valid else "NoSuchType") + "\n"
+
+
+def base_model(version):
+    return f"BaseRec: !record\n  fields:\n    x{version}: float\n"
+
 
 
 def model(version, valid=True, n_extra=0):
-    s = f"# version {version}\nHeader: !record\n  fields:\n    id: uint32\n"
+    s = f"# version {version}\nHeader: !record\n  fields:\n    id: uint32\n    lib: Lib.LibRec\n"
     for i in range(version % 7 + n_extra):
         s += f"    f{i}v{version}: " + ("int32" if valid or i else "NoSuchType") + "\n"
     if not valid:
@@ -79,6 +97,14 @@ def directed_schedules():
         ("invalid-during-delay", [("delay", 400), S(1, valid=False), ("sleep", 50), S(2)]),
         ("second-file", [S(1), ("sleep", 30), ("save2", 5), ("sleep", 30), S(2), ("save2", 6)]),
         ("touch-only", [S(1), ("sleep", 100), S(1), ("sleep", 3), S(1)]),
+    ] + [
+        # an imported package goes through an invalid state (each kind of failure of its own import list), is repaired, and the
+        # watched package keeps being edited
+        (f"imported-package-invalid-{kind}", [S(1), ("sleep", 150), ("lib-manifest", kind), ("sleep", 30), S(2), ("sleep", 400), ("lib-manifest", "valid"), ("sleep", 30), S(3),
+                                              ("sleep", 300), ("lib-model", 4), ("sleep", 30), S(4), ("sleep", 200), S(5)])
+        for kind in LIB_MANIFESTS if kind != "valid"
+    ] + [
+        ("imported-model-invalid", [S(1), ("sleep", 100), ("lib-model", 2, False), ("sleep", 30), S(2), ("sleep", 300), ("lib-model", 3), ("sleep", 30), S(3), ("sleep", 200), ("base-model", 4), ("sleep", 30), S(4)]),
     ]
 
 
@@ -93,7 +119,15 @@ def random_schedule(rng):
         steps.append(("sleep", rng.choice([0, 1, 3, 6, 10, 30, 100, 250])))
         if rng.random() < 0.2:
             steps.append(("save2", v))
+        if rng.random() < 0.25:
+            steps.append(("lib-manifest", rng.choice(list(LIB_MANIFESTS))))
+        if rng.random() < 0.2:
+            steps.append(("lib-model", v, rng.random() > 0.3))
+        if rng.random() < 0.15:
+            steps.append(("base-model", v))
+    # the final contents are valid
     v += 1
+    steps += [("lib-manifest", "valid"), ("lib-model", v, True), ("sleep", 20)]
     steps.append(("save", v, {}))
     return steps
 
@@ -117,6 +151,10 @@ def _execute(ybin, root, steps):
     _write(os.path.join(pkg, "_package.yml"), MANIFEST)
     _write(os.path.join(pkg, "model.yml"), model(0))
     _write(os.path.join(pkg, "extra.yml"), "Extra0: int32\n")
+    for d, man, mdl in (("lib", LIB_MANIFESTS["valid"], lib_model(0)), ("base", "namespace: Base\n", base_model(0))):
+        os.makedirs(os.path.join(root, d), exist_ok=True)
+        _write(os.path.join(root, d, "_package.yml"), man)
+        _write(os.path.join(root, d, "model.yml"), mdl)
     delay_file = os.path.join(root, "delay")
     log = open(os.path.join(root, "watch.log"), "wb")
     p = subprocess.Popen([ybin, "generate", "--watch"], cwd=pkg, stdout=log, stderr=subprocess.STDOUT,
@@ -143,6 +181,12 @@ def _execute(ybin, root, steps):
             elif st[0] == "save2":
                 _write(os.path.join(pkg, "extra.yml"), f"Extra{st[1]}: int32\n")
                 final2 = st[1]
+            elif st[0] == "lib-manifest":
+                _write(os.path.join(root, "lib", "_package.yml"), LIB_MANIFESTS[st[1]])
+            elif st[0] == "lib-model":
+                _write(os.path.join(root, "lib", "model.yml"), lib_model(st[1], st[2] if len(st) > 2 else True))
+            elif st[0] == "base-model":
+                _write(os.path.join(root, "base", "model.yml"), base_model(st[1]))
         # quiescence: no pending delay, output unchanged for a while
         deadline = time.time() + 20
         last_sig, stable_since = None, time.time()
@@ -161,6 +205,8 @@ def _execute(ybin, root, steps):
         os.makedirs(os.path.join(ref, "pkg"))
         for fn in ("_package.yml", "model.yml", "extra.yml"):
             shutil.copy(os.path.join(pkg, fn), os.path.join(ref, "pkg", fn))
+        for d in ("lib", "base"):
+            shutil.copytree(os.path.join(root, d), os.path.join(ref, d))
         r = subprocess.run([ybin, "generate"], cwd=os.path.join(ref, "pkg"), stdout=subprocess.PIPE, stderr=subprocess.STDOUT)
         diff = None
         if r.returncode != 0:
